@@ -130,6 +130,53 @@ func c9Deep(n, d int) (string, int) {
 	return "(vsum " + pad + " " + chain + ")", padLeaves + d + 1
 }
 
+// c9Pairs builds an exactly-n-node program made almost entirely of two-leaf
+// operators (+ x x) — fast operators under FastEvaluation, whose operands get
+// no event node — grouped under vsum nodes of at most 100 operands.
+func c9Pairs(n int) (string, int) {
+	leaves := 0
+	remain := n - 1
+	var blocks []string
+	for remain > 0 {
+		// a block (vsum pair*k [x]*r) has 1 + 3k + r nodes
+		bsz := remain
+		if bsz > 301 {
+			bsz = 301
+		}
+		if bsz < 4 {
+			blocks = append(blocks, strings.Fields(rep1("x", bsz))...)
+			leaves += bsz
+			remain -= bsz
+			continue
+		}
+		in := bsz - 1
+		k, r := in/3, in%3
+		items := make([]string, 0, k+r)
+		for i := 0; i < k; i++ {
+			items = append(items, "(+ x x)")
+		}
+		for i := 0; i < r; i++ {
+			items = append(items, "x")
+		}
+		leaves += 2*k + r
+		blocks = append(blocks, "(vsum "+strings.Join(items, " ")+")")
+		remain -= bsz
+	}
+	// at most 127 blocks per level
+	for len(blocks) > 120 {
+		var up []string
+		for i := 0; i < len(blocks); i += 100 {
+			j := i + 100
+			if j > len(blocks) {
+				j = len(blocks)
+			}
+			up = append(up, "(vsum "+strings.Join(blocks[i:j], " ")+")")
+		}
+		blocks = up
+	}
+	return "(vsum " + strings.Join(blocks, " ") + ")", leaves
+}
+
 type c9fetch struct{ x eval.Value }
 
 func (f c9fetch) Get(eval.VariableKey, string) (eval.Value, error) { return f.x, nil }
@@ -146,7 +193,7 @@ func c09(r *rep.Run) {
 		"node-count families use one variable leaf (x=1) so that nothing is folded"}
 	hs := harnesses(r.Workers)
 	for _, h := range hs {
-		for _, n := range []string{"last", "vsum"} {
+		for _, n := range []string{"last", "vsum", "t0", "i0"} {
 			h.Register(n, ref.Customs[n])
 		}
 	}
@@ -294,6 +341,14 @@ func c09(r *rep.Run) {
 	for n := 3; n <= 400; n += 7 {
 		njobs = append(njobs, njob{"tree", n, 0})
 	}
+	// programs dominated by fast operators: the event-mode limit is reached at
+	// about 24.6k nodes (2n - 2*fast crosses 32767); every n in a window there
+	for n := 24540; n <= 24620; n++ {
+		njobs = append(njobs, njob{"pairs", n, -1})
+	}
+	for n := 32755; n <= 32770; n++ {
+		njobs = append(njobs, njob{"pairs", n, -1})
+	}
 	optsN := []int{0, 15, 4, 2}
 	if r.Thorough() {
 		optsN = []int{0, 1, 2, 3, 4, 5, 6, 7, 8, 9, 10, 11, 12, 13, 14, 15}
@@ -304,7 +359,9 @@ func c09(r *rep.Run) {
 		r.Note(w, sprintf("%s n=%d", j.shape, j.n))
 		var src string
 		var leaves int
-		if j.depth == 0 {
+		if j.depth == -1 {
+			src, leaves = c9Pairs(j.n)
+		} else if j.depth == 0 {
 			src, leaves = c9Tree(j.n)
 		} else {
 			src, leaves = c9Deep(j.n, j.depth)
@@ -336,29 +393,34 @@ func c09(r *rep.Run) {
 					continue
 				}
 				limitSize := j.n
-				if ev != 0 && err0 == nil {
+				known := true // do we know the exact slot count?
+				if ev != 0 && err0 == nil && size > 0 {
 					limitSize = 2*size - 2*fast
 				} else if ev != 0 {
 					limitSize = 2 * j.n
+					known = err0 != nil // event-free compile failed: 2n is an upper bound only
+					if size == 0 && err0 == nil {
+						known = false // DumpTable could not be read: do not guess
+					}
 				}
 				if abs(limitSize-32767) <= 6 {
 					atomic.AddInt64(&near, 1)
 				}
 				if err != nil {
 					atomic.AddInt64(&rejected, 1)
-					if limitSize <= 32767 && j.n <= 32767 {
+					if limitSize <= 32767 && j.n <= 32767 && (known || ev == 0) {
 						r.Violate("rejected-below-limit", "nodes"+o.String(), sprintf("%s program of %d nodes (%d program slots) is rejected under %s: %v", j.shape, j.n, limitSize, o, err), d)
 					}
 					continue
 				}
-				if ev == 0 && size != j.n && b == 0 {
+				if ev == 0 && size != j.n && b == 0 && j.depth != -1 {
 					r.Violate("harness-node-count", "c9", sprintf("harness family %s claims %d nodes but DumpTable says %d", j.shape, j.n, size), d)
 				}
-				if limitSize > 32767 {
+				if limitSize > 32767 && (known || ev == 0) {
 					r.Violate("accepted-above-limit", "nodes"+o.String(), sprintf("%s program needing %d program slots (>32767) is accepted by Compile under %s", j.shape, limitSize, o), d)
 				}
 				if ev != 0 {
-					if sz, _ := tableSize(e); sz != limitSize && err0 == nil {
+					if sz, _ := tableSize(e); sz != limitSize && err0 == nil && known && sz > 0 {
 						r.Violate("event-size", "nodes"+o.String(), sprintf("event-mode program has %d slots, expected %d", sz, limitSize), d)
 					}
 				}
@@ -390,6 +452,17 @@ func c09(r *rep.Run) {
 	}
 	trees := Programs(Core(), []term.Ty{B}, maxT)
 	trees = append(trees, Programs(Rich(), []term.Ty{B, I}, maxT)...)
+	// zero-operand operators that succeed (they push without popping) alone and inside small trees
+	zero := &term.Alphabet{
+		Leaves: map[term.Ty][]*term.Term{B: {term.Var("b", B)}, I: {term.Const(1)}},
+		Ops: []term.OpSig{sig("t0", B), sig("i0", I), sig("and", B, B, B), sig("not", B, B), sig("=", B, I, I), sig("+", I, I, I),
+			{Name: "if", Args: []term.Ty{B, I, I}, Ret: I, If: true}, {Name: "if", Args: []term.Ty{B, B, B}, Ret: B, If: true}},
+	}
+	for _, p := range Programs(zero, []term.Ty{B, I}, maxT) {
+		if strings.Contains(p.Src, "t0") || strings.Contains(p.Src, "i0") {
+			trees = append(trees, p)
+		}
+	}
 	// leaves as contexts' T too
 	depths := []int{6, 7, 8, 9, 14, 15, 16, 17}
 	if r.Thorough() {
